@@ -71,6 +71,11 @@ CHECKS = {
             "Scaled build (maxEntrySize 64 / buffer 6400 substituted in a freshly copied qlogfile.go): every file of 0..5 (quick) / 0..7 (thorough) tail lines over 4 lengths x 5 filler prefixes x 3 gap patterns; every present and absent seek target on a reused reader object; rotated+current pairs at every split. Real build: 1.6 MB / 3.2 MB files with the tail length swept byte by byte so buffer boundaries visit every offset in a line.",
             "the scaled build differs from the shipped source only in one constant; real-constant coverage is the boundary sweep, not all files; lines+newline < maxEntrySize.",
             "DESIGN.md §4 C20", "E1-stateless"),
+    "C14": ("fault_enumeration",
+            "exhaustive enumeration of crash points: a real SIGKILL (strace fault injection) at every file-system call of every save, plus explicit-state exploration of a power-loss model over the recorded syscall log (prefix x surviving unsynced data x lost trailing renames x torn writes), the model validated against every real kill",
+            "72 scenarios (quick): real config.write, the loader's schema-upgrade rewrite, dhcpd dbStore, filter refresh (successful and failing mid-download) x sizes {min, 4095, 4096, 4097, 1 MiB; thorough + 32 MiB} x destination present/absent x temp-file placement, two successive saves each. Every kill point leaves the destination byte-equal to the complete old or new version; every modelled crash state (prefix, surviving data operations since the last fsync, lost trailing namespace operations, write torn at 6 offsets) satisfies the same; a failed refresh leaves the old version.",
+            "real kills land on syscall boundaries; torn writes and lost unsynced data exist only in the log model, which assumes rename atomicity and ordered metadata; atomicity (old or new), not durability, is demanded.",
+            "DESIGN.md §2.5, §4 C14", "E3"),
     "C15": ("fault_enumeration",
             "explicit-state BFS over sequences of scripted list-server answers (faults at every body-offset class) on the real DNSFilter refresh paths, plus exhaustive enumeration of list texts through the real parser with a fixed-point oracle",
             "Sequences of depth 3 (quick) / 4 (thorough) of forced block/allow refreshes x 16 answers (200 L1/L2/same/empty, connection error, 404, 500, 204, 206, body cut before the first byte / mid-line / at a line boundary / after the last line, HTML, NUL on line 1 / line N), scheduled refreshes 25 h / 1 h later x answer pairs, local-file changes and restart, on one HTTP block list, one local-file block list and one HTTP allow list; after every step file bytes, inode, rules_count and CheckHost verdicts of 13 probes are compared with the model and the stored file is re-parsed. Parser: all texts of <=4 (thorough <=6) lines over 14 line kinds x 3 line endings.",
